@@ -199,7 +199,7 @@ var _ *pb.SharedGroupProposal
 //@ ghost to uint64 = 0
 //@ ghost haveClient int = 0
 //@ ghost delivered int = 0
-//@ ghost msgs int = 0
+//@ ghost encFail int = 0
 //@ ghost settled int = 0
 //@ ghost snaps int = 0
 //@ ghost snapReports int = 0
@@ -208,7 +208,7 @@ var _ *pb.SharedGroupProposal
 //@ set encOK = ite(isnil($ret1), 1, 0)
 //@ set haveClient = 0
 //@ set delivered = 0
-//@ set msgs = msgs + ite(isnil($ret1), 1, 0)
+//@ set encFail = encFail + ite(isnil($ret1), 0, 1)
 //@ set snaps = snaps + ite(isnil($ret1) && m.Type == 7, 1, 0)
 //@ end
 //@ at call RaftTransport).getNodeRaftTransportClient
@@ -230,11 +230,11 @@ var _ *pb.SharedGroupProposal
 //@ set snapReports = snapReports + 1
 //@ end
 //@ requires [wf] this.clusterConn != nil && group != nil && !isnil(ctx)
-//@ ensures [C05 every-message-is-delivered-or-reported-unreachable] settled == msgs
+//@ ensures [C05 every-message-is-delivered-or-reported-unreachable] settled + encFail == len(messages)
 //@ ensures [C05 every-snapshot-message-gets-one-status-report] snapReports == snaps
 //@ modifies map(this.clusterConn.conns)
 //@ loop 1
-//@ invariant [C05 every-message-so-far-delivered-or-reported] settled == msgs && snapReports == snaps
+//@ invariant [C05 every-message-so-far-delivered-or-reported] settled + encFail == rangeindex + 1 && snapReports == snaps
 
 // the registered state-machine callbacks may change anything except the raft group's own bookkeeping
 //@ func field:storage/raft.RaftGroup.processFn
